@@ -94,7 +94,7 @@ func (f *frame) enterLoop(li *loopInfo, b *ssa.BasicBlock, pc *Term, st State) (
 	}
 	ghostsInLoop := f.ghostsWrittenIn(li)
 	for _, k := range sortedKeys(st) {
-		if strings.HasPrefix(k, "$visited$") {
+		if strings.HasPrefix(k, "$visited$") && !strings.HasSuffix(k, "$dom0") {
 			// only the visited set of a range that lives inside this loop
 			st[k] = c.fresh(k, st[k].Sort)
 		}
